@@ -156,6 +156,11 @@ def r05_3(ctx, fx):
                        detail="every path to this remove already passed a PeerState transition")
                 continue
             cuts = refine_cuts(fn, rm, ["Some", "?"])
+            # a peer whose dial is tracked has a context (dial / dial_address create it with entry().or_default()):
+            # the None result of a lookup in `peers` is not a path on which a dialing state exists
+            for g in fn.calls(r"HashMap::(get_mut|get)$"):
+                if any("PeerContext" in a for a in g.f.get("args", [])):
+                    cuts |= refine_cuts(fn, g, ["Some", "?"])
             exits = dict(fn.exits())
             r = fn.reach([rm.node], avoid=hits, cut=cuts, after=True)
             bad = [n for n in exits if n in r]
@@ -200,6 +205,7 @@ def r05_4(ctx, fx):
 
 
 def run(ctx):
+    ctx.assume("R05.3: a peer with a tracked dial has an entry in TransportManager.peers (created by dial/dial_address)")
     for cfg in ctx.configs():
         fx = ctx.facts(cfg)
         r05_1(ctx, fx)
